@@ -304,8 +304,15 @@ def check_mift(case, rec):
     rel = float(np.max(np.abs(g - ref) / np.abs(ref)))
     rec.note_max("max_rel_dev_mift_single", rel)
     if rel > 0.20:
-        raise Violation(f"default MIFT single-borehole curve deviates {100 * rel:.1f} % from the FLS curve",
-                        sig={"kind": "mift_single"})
+        # regime label for the known-findings file: how much the effective resistance of the full-depth borehole exceeds the
+        # local one (the same borehole 1 m deep); > 2 means the legs exchange more heat with each other than with the ground
+        bhe, _ = gp.build_bhe(case)
+        rb_eff = float(bhe.calc_effective_borehole_resistance())
+        bhe1, _ = gp.build_bhe(dict(case, borehole=dict(case["borehole"], H=1.0)))
+        rb_loc = float(bhe1.calc_effective_borehole_resistance())
+        raise Violation(f"default MIFT single-borehole curve deviates {100 * rel:.1f} % from the FLS curve "
+                        f"(H = {H:.1f} m, {case['flow']:.3f} L/s, {case['pipe']['type']}, R_b* = {rb_eff:.3f}, local R_b = {rb_loc:.3f})",
+                        sig={"kind": "mift_single", "thermal_short_circuit(Rb*>2Rb)": bool(rb_eff > 2.0 * rb_loc)})
     if sorted(gf.g_lts) != [H] or gf.r_b_values[H] != rb or list(gf.log_time) != lt or gf.d != D:
         raise Violation("GFunction bookkeeping (heights, radius, depth, log_time) differs from the request",
                         sig={"kind": "gfunction_bookkeeping"})
